@@ -276,6 +276,10 @@ pub fn before_sleep(uid: Uid) -> bool {
         s.synth_armed = false;
         if st != St::Enabled && st != St::Limbo {
             w.alarm("C14.not_for_inactive", &format!("before_sleep-on-{}-source", st_name(st)), format!("before_sleep called on source #{} which is {}", uid, st_name(st)));
+            if st == St::Disabled && w.srcs[uid].disabled_by_post_action {
+                // PostAction::Disable has the effect of LoopHandle::disable(), which ends the lifecycle hooks too
+                w.alarm("C09.applied_once", "disable-post-action-left-lifecycle-hooks-running", format!("source #{} returned PostAction::Disable but still gets before_sleep", uid));
+            }
         }
         if waited || !in_dispatch {
             w.alarm("C14.order", "before_sleep-after-wait", format!("before_sleep of #{} called after the wait began", uid));
